@@ -368,13 +368,19 @@ def _run_rotation(case):
 
 LEVELNAME = {'debug': 'DEBUG', 'comlog': 'COMLOG', 'info': 'INFO', 'warning': 'WARNING', 'error': 'ERROR'}
 NODE = 'node'
-ROOT = 'frappy'
 COMMODS = ['m1']
+
+
+def _root(cfg):
+    """the name of the main logger is not part of the specification: two concrete values"""
+    return 'secop' if cfg['con'] == 'error' else 'frappy'
 
 
 def _gen_config(cfg, logdir):
     """gamma: the abstract configuration as generalConfig keys (values as a config file gives them: strings)"""
-    gc = {'logger_root': ROOT, 'omit_unchanged_within': 0}
+    gc = {'omit_unchanged_within': 0}
+    if _root(cfg) != 'frappy':                                      # 'frappy' is the default
+        gc['logger_root'] = _root(cfg)
     if cfg['file'] == 'nodir':
         gc['logdir'] = ''
     else:
@@ -413,6 +419,7 @@ class SinkWorld:
         os.environ['TZ'] = 'UTC'
         _time.tzset()
         self.cfg = cfg
+        self.root = _root(cfg)
         self.modnames = list(mods)
         self.fl = fl
         self.dir = tempfile.mkdtemp(prefix='sink-', dir=TMPBASE)
@@ -539,10 +546,10 @@ class SinkWorld:
         """{(sink, day): lines} for everything below the temporary directory; a file that is not one of the specified
         sinks is reported under its path"""
         names = {_time.strftime('%Y-%m-%d', _time.gmtime(DAY0 + (k - 1) * 86400)): k for k in range(1, 12)}
-        where = {os.path.join('log', ROOT): 'main', os.path.join('log', ROOT, NODE): 'node'}
-        prefix = {'main': ROOT, 'node': NODE}
+        where = {os.path.join('log', self.root): 'main', os.path.join('log', self.root, NODE): 'node'}
+        prefix = {'main': self.root, 'node': NODE}
         for m in COMMODS:
-            where[os.path.join('log', ROOT, 'comlog', NODE, m)] = m
+            where[os.path.join('log', self.root, 'comlog', NODE, m)] = m
             prefix[m] = m
         res = {'console': self.console.getvalue().splitlines()}
         for dp, _, fns in os.walk(self.dir):
@@ -644,11 +651,11 @@ class SinkWorld:
             msg = 'E%d %s' % (self.stepno, a['lvl'])
             self.mods[a['mod']].log.log(LEVELNO[a['lvl']], 'E%d %s', self.stepno, a['lvl'])
             obs['to'] = self.received(a['mod'], a['lvl'])
-            obs['sinks'] = self.observe_sinks('%s.%s.%s' % (ROOT, NODE, a['mod']), a['lvl'], msg, None)
+            obs['sinks'] = self.observe_sinks('%s.%s.%s' % (self.root, NODE, a['mod']), a['lvl'], msg, None)
         elif act == 'mainemit':
             msg = 'M%d %s' % (self.stepno, a['lvl'])
             self.main.log.log(LEVELNO[a['lvl']], 'M%d %s', self.stepno, a['lvl'])
-            obs['sinks'] = self.observe_sinks(ROOT, a['lvl'], msg, None)
+            obs['sinks'] = self.observe_sinks(self.root, a['lvl'], msg, None)
             got = [n for n, c in self.conns.items() if c.msgs]
             if got:
                 obs['sinks'].append('remote!' + ','.join(got))
@@ -656,7 +663,7 @@ class SinkWorld:
             cmd = 'x%d' % self.stepno
             self.mods[a['mod']].communicate(cmd)
             obs['to'] = self.received(a['mod'], 'comlog')
-            obs['sinks'] = self.observe_sinks('%s.%s.%s' % (ROOT, NODE, a['mod']), 'comlog', '> ' + cmd, '> ' + cmd)
+            obs['sinks'] = self.observe_sinks('%s.%s.%s' % (self.root, NODE, a['mod']), 'comlog', '> ' + cmd, '> ' + cmd)
         elif act == 'nextday':
             self.now[0] += 86400
             self.day += 1
